@@ -183,4 +183,75 @@ def compArg (c : Chars) (parsed : Option (List Char × List Char)) :
         | _ => .own "InvalidComplibURLError"
     | [] => .own "InvalidComplibURLError"
 
+/-! ### `json_to_row_generator` (server mode) -/
+
+/-- JSON values as they arrive in `s_wheatley_row_gen` (numbers restricted to integers). -/
+inductive JVal where
+  | null
+  | bool (b : Bool)
+  | int (n : Int)
+  | str (s : List Char)
+  | arr (xs : List JVal)
+  | obj (kvs : List (String × JVal))
+
+instance : Inhabited JVal := ⟨.null⟩
+
+def JVal.get (j : JVal) (k : String) : Option JVal :=
+  match j with
+  | .obj kvs => (kvs.reverse.find? (fun p => p.1 == k)).map (·.2)
+  | _ => none
+
+/-- `int(json["stage"])`; `none` = `ValueError` / `TypeError`. -/
+def jInt (c : Chars) : JVal → Option Int
+  | .int n => some n
+  | .bool b => some (if b then 1 else 0)
+  | .str s => pyInt c s
+  | _ => none
+
+/-- `json_to_call(name)`: absent ↦ default (`some none`); a dictionary with integer-like keys ↦ the
+call definition; anything else ↦ `RowGenParseError` (`none`). -/
+def jCall (c : Chars) (j : JVal) (name : String) : Option (Option (List (Int × JVal))) :=
+  match j.get name with
+  | none => some none
+  | some (.obj kvs) =>
+    match kvs.mapM (fun (k, v) => (pyInt c k.toList).map (fun i => (i, v))) with
+    | some l => some (some l)
+    | none => none
+  | some _ => none
+
+/-- A call definition whose notations are all strings; `none` = the constructor raised. -/
+def callStrings (d : List (Int × JVal)) : Option (List (Int × List Char)) :=
+  d.mapM (fun (i, v) => match v with | .str s => some (i, s) | _ => none)
+
+/-- Last-write-wins on repeated integer keys (`call[index] = value`). -/
+def dedupCalls {α} (d : List (Int × α)) : List (Int × α) :=
+  d.foldl (fun acc p => acc.filter (fun q => q.1 != p.1) ++ [p]) []
+
+/-- `json_to_row_generator` for `"type": "method"`: the generator, or `none` = `RowGenParseError`.
+(There is no third outcome: that is the totality theorem.) -/
+def rowGenMethod (c : Chars) (j : JVal) : Option Gen :=
+  match j.get "stage" with
+  | none => none
+  | some sv =>
+    match jInt c sv with
+    | none => none
+    | some stage =>
+      match j.get "notation" with
+      | none => none
+      | some nv =>
+        match jCall c j "bob", jCall c j "single" with
+        | some bob, some single =>
+          match nv with
+          | .str pn =>
+            -- `PlaceNotationGenerator(stage, notation, bob, single)`: any ValueError / TypeError /
+            -- AttributeError of the constructor is turned into RowGenParseError
+            if stage < 0 then none   -- `rounds(stage)` is empty, `(i-1) % lead_len` still fine: see harness note
+            else
+              match (bob.map (fun d => callStrings (dedupCalls d))), (single.map (fun d => callStrings (dedupCalls d))) with
+              | some none, _ => none
+              | _, some none => none
+              | b, s => mkPN stage.toNat pn (b.map (·.getD [])) (s.map (·.getD [])) 0 none
+          | _ => none
+        | _, _ => none
+
 end Wheatley.Parse
